@@ -15,7 +15,9 @@
 (* must be TRUE; every range those facts were computed over is logged and recomputed here.           *)
 (*                                                                                                 *)
 (* inp = [start, ivtOff, ils, appLen, flags, cfgKind, cfgLen, entry, ver, nSrk, srcIdx, fast,        *)
-(*        imgTgt, vfyIdx, macLen, dekLen, waive]                                                    *)
+(*        imgTgt, vfyIdx, macLen, dekLen, waive, xmcdKind]                                          *)
+(* inp.xmcdKind: "none" (no XMCD), a name of HabLayout!XmcdKinds (a block of that real kind was given  *)
+(* to the builder) or "raw" (a well-formed header + arbitrary configuration bytes of inp.cfgLen bytes). *)
 (* inp.waive is empty when a trace is judged.  Only after a rejection whose finding key is listed as  *)
 (* KNOWN does the harness validate the same trace again with that one clause waived, so that a known  *)
 (* defect does not hide what comes after it (a further rejection is reported under its own key).      *)
@@ -25,7 +27,7 @@ F(inp, a) == LET o == Off(a, inp.start) IN IF o = BIG THEN BIG ELSE o - inp.ivtO
 
 Waived(inp, w) == \E i \in 1..Len(inp.waive) : inp.waive[i] = w
 
-S0 == [st |-> "Ivt", ivt |-> [x |-> 0], bd |-> [x |-> 0], fileLen |-> 0, cfg |-> {}, csf |-> [at |-> 0, len |-> 0],
+S0 == [st |-> "Ivt", ivt |-> [x |-> 0], bd |-> [x |-> 0], fileLen |-> 0, cfg |-> {}, cfgEv |-> [x |-> 0], csf |-> [at |-> 0, len |-> 0],
        cur |-> 0, nCmds |-> 0, slots |-> {}, srkCa |-> FALSE, csfOk |-> FALSE, secrets |-> {}, signed |-> {}, macd |-> {},
        refs |-> {}, blob |-> -1]
 
@@ -54,9 +56,12 @@ DcdOK(inp, s, e) ==
   /\ e.match                                                                 \* bytes at the pointer = the DCD given to the builder
 XmcdOK(inp, s, e) ==
   /\ s.st = "Cfg" /\ inp.cfgKind = "xmcd"
-  /\ e.at = XmcdAt /\ e.tag = 12 /\ e.size = inp.cfgLen /\ e.at + e.size <= s.fileLen
+  /\ e.at = XmcdAt /\ e.tag = 12 /\ e.ver = 0 /\ e.size = inp.cfgLen /\ e.at + e.size <= s.fileLen     \* C0 .. .. size
+  /\ e.size > XmcdHdr /\ e.size <= XmcdMax /\ e.iface \in {0, 1} /\ e.btype \in {0, 1} /\ e.inst \in 0..15
+  /\ (inp.xmcdKind # "raw" =>                                                \* the header the ROM reads is the header of that kind
+        LET k == XmcdKinds[inp.xmcdKind] IN e.size = k.size /\ e.iface = k.iface /\ e.btype = k.btype)
   /\ (e.match \/ Waived(inp, "xmcdMatch"))                                   \* bytes at IVT + 0x40 = the XMCD given to the builder
-CfgNx(inp, s, e) == [s EXCEPT !.st = "App", !.cfg = {<<e.at, e.at + inp.cfgLen>>}]
+CfgNx(inp, s, e) == [s EXCEPT !.st = "App", !.cfg = {<<e.at, e.at + inp.cfgLen>>}, !.cfgEv = e]
 
 AppOK(inp, s, e) ==
   /\ s.st = "App" /\ e.len = inp.appLen
@@ -188,6 +193,10 @@ ParseBackOK(inp, s, e) ==
   /\ e.bdStart = s.bd.start /\ e.bdLen = s.bd.len /\ e.plugin = s.bd.plugin
   /\ e.flags = FlagWord(inp.flags)
   /\ e.hasDcd = (inp.cfgKind = "dcd") /\ e.hasXmcd = (inp.cfgKind = "xmcd") /\ e.hasCsf = (inp.flags # "plain")
+  \* the DCD / XMCD segment the parser recovers sits where the ROM read it and has its size; an XMCD comes back as the same kind
+  /\ IF inp.cfgKind = "none" THEN e.cfgAt = -1 /\ e.cfgLen = 0
+                             ELSE \E r \in s.cfg : e.cfgAt = r[1] /\ e.cfgAt + e.cfgLen = r[2]
+  /\ (inp.cfgKind = "xmcd" => e.xSize = s.cfgEv.size /\ e.xIface = s.cfgEv.iface /\ e.xInst = s.cfgEv.inst /\ e.xType = s.cfgEv.btype)
   /\ e.appAt = AppAt(inp) /\ e.nCmds = s.nCmds /\ e.cStart = inp.start /\ e.cIvtOff = inp.ivtOff
   /\ e.ivtEq /\ e.bdEq /\ (e.cfgEq \/ Waived(inp, "xmcdMatch")) /\ e.appEq /\ e.csfEq /\ e.reexpEq
 ParseBackNx(inp, s, e) == [s EXCEPT !.st = "Done"]
